@@ -457,9 +457,20 @@ def _run(case, out, rig, variant, ping):
     if ping:
         rig.sched.advance(1.0)      # the keep-alive thread's tick becomes due together with the senders
     if start_round >= 2:
+        if case.get("stall") is not None:
+            # one of the writes of the senders' traffic blocks for 20 s (the peer is slow to read): whoever else wants to send waits
+            # for that long - the stream stays a sequence of whole frames in counter order
+            rig.stall_write_in = case["stall"]
+            out.label("a_write_blocks_for_a_long_time")
         spawn_senders()
     if not problems:
         problems += rig.shuttle()
+    if case.get("stall") is not None and start_round >= 2:
+        for _ in range(5):
+            rig.sched.advance(6.0)
+            if not problems:
+                problems += rig.shuttle()
+        rig.stall_write_in = None
     if problems:
         out.fail("stream", "stream:peer_rejects_byte_stream", {"problem": str(problems[0])[:300], "results": results})
         return out
@@ -563,6 +574,9 @@ def case_strategy(tier):
         }
         if tier != "quick":
             case["trace_lines"] = draw(st.booleans())
+        if case["start_round"] >= 2 and draw(st.integers(0, 3)) == 0:
+            case["stall"] = draw(st.integers(0, 7))
+            case["ping"] = False     # (half a minute of silence would make the keep-alive give the connection up - rightly)
         if case["variant"] != "bare" and draw(st.integers(0, 3)) == 0:
             case["earlier_connection"] = True
             case["start_round"] = draw(st.sampled_from([0, 0, 1, 2]))
@@ -593,6 +607,15 @@ def _enum_login_preemption_sweep():
         for i in range(steps + 1):
             for sel in (0, 1, 2, 3):      # net thread, two senders, handshake worker: any of the others takes over
                 yield dict(base, preempt=[[i, sel]])
+
+
+def _enum_stalled_writes():
+    """each of the first eight writes of two senders' traffic blocking for 20 s, under three schedules"""
+    for variant in ("core", "bare", "proto"):
+        for stall in range(8):
+            for choices in ([], [1, 0, 2, 1, 3, 0, 2] * 30, [2, 1] * 100):
+                yield {"sub": "senders", "variant": variant, "tasks": [[["iq", 1], ["message", 300]], [["receipt", 1], ["presence", 10]]],
+                       "ping": False, "start_round": 2, "choices": choices, "stall": stall}
 
 
 def _enum_reconnect_preemption_sweep():
@@ -690,7 +713,7 @@ def plan(tier):
     return {
         "shards": 16,
         "enumerations": [("basic", _enum_basic), ("login_preemption_sweep", _enum_login_preemption_sweep),
-                         ("first_send_line_sweep", _enum_first_send_line_sweep), ("reconnect_preemption_sweep", _enum_reconnect_preemption_sweep),
+                         ("first_send_line_sweep", _enum_first_send_line_sweep), ("reconnect_preemption_sweep", _enum_reconnect_preemption_sweep), ("stalled_writes", _enum_stalled_writes),
                          ("dispatcher_writes_basic", _enum_dispatcher_writes),
                          ("dispatcher_race_sweep", _enum_dispatcher_race), ("reconnect_writes_basic", _enum_reconnect_writes)],
         "exhaustive": ["login_preemption_sweep", "first_send_line_sweep"],
